@@ -1,13 +1,217 @@
 import DoviModel.Proofs.Split
 import DoviModel.Proofs.Esc
-/-! # C06 — model theorems are added here as the stream-level model (M7/M8) is completed -/
+import DoviModel.Proofs.Hevc
+/-!
+# C06 — mux and demux are inverse; layers stay frame-aligned
+
+Theorems about the model `Hevc.mux` (BL frame buffer against the queue of EL frames, `Model/Hevc.lean`) and its
+composition with `Hevc.general (cfgDemux ..)`.  `./check C06` ties the model to the real CLI on every generated
+pair (driver ops `hevc.mux`, `hevc.general demux`), including the cases the property leaves open (EL shorter
+than BL), where the model states what the tool does.  Frame labels (`Item.au`), regenerated AUD bytes (`aud`)
+and RPU rewrites (`conv`) are parameters.
+-/
 namespace Dovi.C06
-open Dovi Dovi.Split
+open Dovi Dovi.Split Dovi.Hevc
 
 /-- both layers are read through the same chunked reader: the NAL list each layer contributes does not depend
 on where its read boundaries fall -/
 theorem layer_chunking_irrelevant (cs cs' : List Bytes) (l l' : Bytes)
-    (h : cs.flatten ++ l = cs'.flatten ++ l') : run [] cs l = run [] cs' l' := by
+    (h : cs.flatten ++ l = cs'.flatten ++ l') : Split.run [] cs l = Split.run [] cs' l' := by
   rw [run_eq_split, run_eq_split]; simp [h]
+
+/-! ## frame alignment -/
+
+/-- **Alignment.**  With as many EL frames as BL frames, mux succeeds without error and its output is, for
+k = 0, 1, …, the muxed frame built from BL frame buffer k and EL frame k (`muxFrame`, structure below) —
+for every pair of streams (the last BL frame buffer holding at least one NAL that is kept). -/
+theorem mux_alignment (c : MCfg) (aud : Nat → Bytes) (conv : Bytes → Option Bytes) (bl el : List Item)
+    (els : List (List Out)) (hdrop : c.drop = false) (hels : elFrames c conv (runs el) = some els)
+    (hlen : (frames bl).length = (runs el).length)
+    (hlast : ∀ fr, (frames bl).getLast? = some fr → blBody c fr.2 ≠ []) :
+    mux c aud conv bl el = some (((frames bl).zip els).flatMap (fun p => muxFrame c aud p.1 p.2), false) :=
+  mux_aligned c aud conv bl el els hdrop hels hlen hlast
+
+/-- **Frame structure.**  A muxed frame is: the buffered BL NALs of the frame — led by exactly one regenerated
+AUD unless --no-add-aud (`muxBody`; existing AUDs are not buffered then), UNSPEC62/63 NALs of the BL not carried
+over — with its EOS/EOB NALs held back, then the EL frame, then the held-back EOS/EOB; with --eos-before-el all
+BL NALs, then the EL frame. -/
+theorem mux_frame_structure (c : MCfg) (aud : Nat → Bytes) (fr : Nat × List Item) (e : List Out) :
+    (muxFrame c aud fr e).map pay =
+      if c.eosBeforeEl then muxBody c aud fr ++ e.map pay
+      else (muxBody c aud fr).filter (fun x => !isEos x.1) ++ e.map pay ++ (muxBody c aud fr).filter (fun x => isEos x.1) :=
+  muxFrame_pay c aud fr e
+
+/-- **EL frame.**  Every EL NAL is written wrapped as UNSPEC63 (`7E 01` in front of its bytes), the RPU as
+itself or as its library rewrite, in the EL's order; with --discard only the RPU; the command fails iff the
+library refuses an RPU. -/
+theorem mux_el_frame_wrapped (c : MCfg) (conv : Bytes → Option Bytes) (l : List Item) :
+    (elFrame c conv l).map (fun e => e.map pay) = (optMap (elPaySpec c conv) l).map List.flatten :=
+  elFrame_pay c conv l
+
+/-- with --discard only the RPU of the EL is kept -/
+theorem mux_discard_keeps_only_rpu (c : MCfg) (conv : Bytes → Option Bytes) (l : List Item) (e : List Out)
+    (hd : c.discard = true) (h : elFrame c conv l = some e) : ∀ o ∈ e, o.typ = NAL_UNSPEC62 := by
+  induction l generalizing e with
+  | nil => simp [elFrame] at h; subst h; simp
+  | cons it rest ih =>
+    simp only [elFrame] at h
+    cases hn : elNal c conv it with
+    | none => simp [hn] at h
+    | some oo =>
+      cases hr : elFrame c conv rest with
+      | none => cases oo <;> simp [hn, hr] at h
+      | some os =>
+        cases oo with
+        | none => simp [hn, hr] at h; subst h; exact ih os hr
+        | some o =>
+          simp [hn, hr] at h; subst h
+          intro x hx
+          rcases List.mem_cons.mp hx with rfl | hx
+          · unfold elNal at hn
+            split at hn
+            · cases hn
+            · rename_i hnot
+              split at hn
+              · rename_i h62; exact absurd ⟨hd, h62⟩ hnot
+              · cases hc : (if c.convSet = true then conv it.data else some it.data) with
+                | none => simp [hc] at hn
+                | some m => simp only [hc, Option.some.injEq] at hn; subst hn; rfl
+          · exact ih os hr x hx
+
+/-- **EL longer than BL** must end with an error status and an output trimmed to the BL length: the aligned
+interleave of the BL frames with the first EL frames, error flag set. -/
+theorem mux_el_longer_errors (c : MCfg) (aud : Nat → Bytes) (conv : Bytes → Option Bytes) (bl el : List Item)
+    (els : List (List Out)) (hdrop : c.drop = false) (hels : elFrames c conv (runs el) = some els)
+    (hlen : (frames bl).length < (runs el).length)
+    (hlast : ∀ fr, (frames bl).getLast? = some fr → blBody c fr.2 ≠ []) :
+    mux c aud conv bl el = some (((frames bl).zip els).flatMap (fun p => muxFrame c aud p.1 p.2), true) :=
+  mux_el_longer c aud conv bl el els hdrop hels hlen hlast
+
+/-! ## inverses -/
+
+/-- **demux(mux(BL, EL)) returns both layers' NAL payloads.**  Equal frame counts, no --discard, no mode:
+whatever frame labels the muxed stream is read back with, demux's EL file holds exactly the NALs of the EL that
+was muxed in (every byte, RPUs in place) and its BL file holds, frame by frame, the buffered BL NALs
+(`muxBlPart`: regenerated AUD first unless --no-add-aud, EOS/EOB moved behind unless --eos-before-el). -/
+theorem mux_demux_id (c : MCfg) (aud : Nat → Bytes) (conv conv' : Bytes → Option Bytes) (bl el : List Item)
+    (out : List Out) (e : Bool) (mo : List Item) (s : Sinks) (annexb' : Bool)
+    (hdrop : c.drop = false) (hd : c.discard = false) (hcs : c.convSet = false)
+    (hlen : (frames bl).length = (runs el).length)
+    (hlast : ∀ fr, (frames bl).getLast? = some fr → blBody c fr.2 ≠ [])
+    (hmux : mux c aud conv bl el = some (out, e))
+    (hmo : mo.map payI = out.map pay) (hnd : NoDupFrom 0 (rpuAus mo))
+    (hdemux : general { cfgDemux false with annexb := annexb' } conv' mo = some s) :
+    e = false ∧
+    s.el.map pay = el.map (fun it => if it.typ ≠ NAL_UNSPEC62 then (nalType it.data, it.data) else (NAL_UNSPEC62, it.data)) ∧
+    s.bl.map pay = (frames bl).flatMap (muxBlPart c aud) :=
+  mux_demux c aud conv conv' bl el out e mo s annexb' hdrop hd hcs hlen hlast hmux hmo hnd hdemux
+
+/-- … and with --no-add-aud --eos-before-el the BL comes back exactly (its own UNSPEC62/63 NALs aside) -/
+theorem mux_demux_bl_exact (c : MCfg) (aud : Nat → Bytes) (bl : List Item)
+    (hna : c.noAddAud = true) (heos : c.eosBeforeEl = true) :
+    (frames bl).flatMap (muxBlPart c aud) = (bl.filter isBl).map payI := by
+  have hp : ∀ x : Item, decide (x.typ ≠ NAL_UNSPEC62 ∧ x.typ ≠ NAL_UNSPEC63 ∧ (c.noAddAud = true ∨ x.typ ≠ NAL_AUD)) = isBl x := by
+    intro x
+    by_cases h1 : x.typ = NAL_UNSPEC62 <;> by_cases h2 : x.typ = NAL_UNSPEC63 <;> simp [isBl, h1, h2, hna]
+  have hfr : muxBlPart c aud = fun fr => (fr.2.filter isBl).map payI := by
+    funext fr
+    simp only [muxBlPart, heos, if_true, muxBody, blBody]
+    rw [if_pos hna]
+    congr 1
+    apply List.filter_congr
+    intro x _
+    exact hp x
+  rw [hfr, ← List.map_flatMap]
+  congr 1
+  have := frames_flatten bl
+  conv => rhs; rw [← this]
+  induction frames bl with
+  | nil => rfl
+  | cons fr rest ih => simp [List.flatMap_cons, List.filter_append, ih]
+
+/-- **mux(demux(s)) = s.**  For every dual-layer stream whose access units have the layout
+[BL NALs][EL NALs + RPU][EOS/EOB] (`DlFrame.Wf`: at least one BL NAL and one EL-bound NAL per unit, UNSPEC63 NALs
+with the header `7E 01`, units numbered from 0 with adjacent numbers distinct), muxing the BL half with the EL
+half — the halves as `demux_partition` (C05) says demux writes them — under --no-add-aud yields the original
+NAL sequence, every NAL with its bytes, and no error. -/
+theorem demux_mux_id (c : MCfg) (aud : Nat → Bytes) (conv : Bytes → Option Bytes) (f0 : DlFrame) (rest : List DlFrame)
+    (hna : c.noAddAud = true) (heos : c.eosBeforeEl = false) (hd : c.discard = false) (hcs : c.convSet = false)
+    (hdrop : c.drop = false) (h0 : f0.au = 0) (hl : LabelsOk f0.au rest) (hwf : ∀ f ∈ f0 :: rest, f.Wf) :
+    ∃ out, mux c aud conv (((f0 :: rest).flatMap DlFrame.all).filter isBl)
+        ((((f0 :: rest).flatMap DlFrame.all).filter isEl).map unwrapItem) = some (out, false) ∧
+      out.map pay = ((f0 :: rest).flatMap DlFrame.all).map payI :=
+  Hevc.demux_mux_id c aud conv f0 rest hna heos hd hcs hdrop h0 hl hwf
+
+/-- **mux(demux(s)) = s with AUDs regenerated**: the same for a source in canonical form — every access unit led by
+the very AUD the tool regenerates for it (`DlFrame.CanonAud`) — without --no-add-aud. -/
+theorem demux_mux_id_canonical (c : MCfg) (aud : Nat → Bytes) (conv : Bytes → Option Bytes) (f0 : DlFrame) (rest : List DlFrame)
+    (hna : c.noAddAud = false) (heos : c.eosBeforeEl = false) (hd : c.discard = false) (hcs : c.convSet = false)
+    (hdrop : c.drop = false) (h0 : f0.au = 0) (hl : LabelsOk f0.au rest) (hwf : ∀ f ∈ f0 :: rest, f.Wf)
+    (hca : ∀ f ∈ f0 :: rest, f.CanonAud aud) :
+    ∃ out, mux c aud conv (((f0 :: rest).flatMap DlFrame.all).filter isBl)
+        ((((f0 :: rest).flatMap DlFrame.all).filter isEl).map unwrapItem) = some (out, false) ∧
+      out.map pay = ((f0 :: rest).flatMap DlFrame.all).map payI :=
+  Hevc.demux_mux_id_canonical c aud conv f0 rest hna heos hd hcs hdrop h0 hl hwf hca
+
+/-- … **byte-identical**: with the start-code preset `four` (the default) every NAL mux writes is behind a 4-byte
+start code, so for a canonical source written with 4-byte start codes (and no trailing zero bytes) the muxed file
+equals the source byte for byte -/
+theorem mux_start_codes_four (c : MCfg) (aud : Nat → Bytes) (conv : Bytes → Option Bytes) (bl el : List Item)
+    (out : List Out) (e : Bool) (h : c.annexb = false) (hm : mux c aud conv bl el = some (out, e)) :
+    ∀ o ∈ out, o.sc = 4 :=
+  mux_four c aud conv bl el out e h hm
+
+/-! ## non-vacuity: two frames, the first closed by EOS -/
+
+def exBl : List Item :=
+  [⟨35, [0x46, 1, 0x50], 0⟩, ⟨32, [0x40, 1, 0x0C], 0⟩, ⟨19, [0x26, 1, 0xAA], 0⟩, ⟨36, [0x48, 1], 0⟩,
+   ⟨1, [0x02, 1, 0xBB], 1⟩, ⟨40, [0x50, 1, 5, 1, 7, 0x80], 1⟩]
+def exEl : List Item :=
+  [⟨19, [0x26, 1, 0xAB], 0⟩, ⟨62, [0x7C, 1, 0x19, 0xA0], 0⟩, ⟨1, [0x02, 1, 0xBC], 1⟩, ⟨62, [0x7C, 1, 0x19, 0xA1], 1⟩]
+def exAud : Nat → Bytes := fun k => [[0x46, 1, 0x10], [0x46, 1, 0x30]].getD k []
+
+/-- the hypotheses of `mux_alignment` hold … -/
+example : (frames exBl).length = (runs exEl).length ∧
+    (∀ fr, (frames exBl).getLast? = some fr → blBody {} fr.2 ≠ []) ∧
+    (elFrames {} (fun _ => none) (runs exEl)).isSome = true := by
+  refine ⟨by decide, ?_, by decide⟩
+  intro fr h
+  have : (frames exBl).getLast? = some (1, [⟨1, [0x02, 1, 0xBB], 1⟩, ⟨40, [0x50, 1, 5, 1, 7, 0x80], 1⟩]) := by decide
+  rw [this] at h
+  simp only [Option.some.injEq] at h
+  subst h
+  decide
+
+/-- … and the muxed stream: AUD regenerated (the BL's own dropped), EOS after the EL, EL wrapped, RPU as is -/
+example : (mux {} exAud (fun _ => none) exBl exEl).map (fun r => (r.1.map pay, r.2)) = some
+    ([(35, [0x46, 1, 0x10]), (32, [0x40, 1, 0x0C]), (19, [0x26, 1, 0xAA]), (63, [0x7E, 1, 0x26, 1, 0xAB]),
+      (62, [0x7C, 1, 0x19, 0xA0]), (36, [0x48, 1]),
+      (35, [0x46, 1, 0x30]), (1, [0x02, 1, 0xBB]), (40, [0x50, 1, 5, 1, 7, 0x80]), (63, [0x7E, 1, 0x02, 1, 0xBC]),
+      (62, [0x7C, 1, 0x19, 0xA1])], false) := by decide
+
+/-- EL longer than BL: same output for the BL's frames, error flag -/
+example : ((mux {} exAud (fun _ => none) (exBl.take 4) exEl).map (fun r => (r.1.length, r.2))) = some (6, true) := by decide
+
+/-- EL shorter than BL (left open by the property): the tool holds the last EL frame back for the last BL frame -/
+example : ((mux {} exAud (fun _ => none) exBl (exEl.take 2)).map (fun r => r.1.map (·.typ))) =
+    some [35, 32, 19, 36, 35, 1, 40, 63, 62] := by decide
+
+/-- a well-formed dual-layer stream for `demux_mux_id` -/
+def exDl : List DlFrame :=
+  [⟨0, [⟨35, [0x46, 1, 0x10], 0⟩, ⟨19, [0x26, 1, 0xAA], 0⟩], [⟨63, [0x7E, 1, 0x26, 1, 0xAB], 0⟩, ⟨62, [0x7C, 1, 0x19, 0xA0], 0⟩], [⟨36, [0x48, 1], 0⟩]⟩,
+   ⟨1, [⟨1, [0x02, 1, 0xBB], 1⟩], [⟨62, [0x7C, 1, 0x19, 0xA1], 1⟩], []⟩]
+
+example : (mux { noAddAud := true } exAud (fun _ => none) ((exDl.flatMap DlFrame.all).filter isBl)
+    (((exDl.flatMap DlFrame.all).filter isEl).map unwrapItem)).map (fun r => (r.1.map pay, r.2)) =
+    some ((exDl.flatMap DlFrame.all).map payI, false) := by decide
+
+/-- a canonical source (AUD the tool regenerates, first in every access unit) for `demux_mux_id_canonical` -/
+def exDlCanon : List DlFrame :=
+  [⟨0, [⟨35, [0x46, 1, 0x10], 0⟩, ⟨19, [0x26, 1, 0xAA], 0⟩], [⟨63, [0x7E, 1, 0x26, 1, 0xAB], 0⟩, ⟨62, [0x7C, 1, 0x19, 0xA0], 0⟩], [⟨36, [0x48, 1], 0⟩]⟩,
+   ⟨1, [⟨35, [0x46, 1, 0x30], 1⟩, ⟨1, [0x02, 1, 0xBB], 1⟩], [⟨62, [0x7C, 1, 0x19, 0xA1], 1⟩], []⟩]
+
+example : (mux {} exAud (fun _ => none) ((exDlCanon.flatMap DlFrame.all).filter isBl)
+    (((exDlCanon.flatMap DlFrame.all).filter isEl).map unwrapItem)).map (fun r => (r.1.map pay, r.1.map (·.sc), r.2)) =
+    some ((exDlCanon.flatMap DlFrame.all).map payI, [4, 4, 4, 4, 4, 4, 4, 4], false) := by decide
 
 end Dovi.C06
